@@ -124,6 +124,9 @@ func genTok(r *Rng, o GenOpts, term string, compNames []string) Tok {
 func genField(r *Rng, o GenOpts, fi int) Field {
 	name := o.FName(fi)
 	f := Field{Name: name, Typ: byte('a' + r.Intn(3)), TV: r.Intn(3) != 0}
+	if r.Chance(12) {
+		f.Typ = []byte{0x7f, 0x80, 0x81, 0xe1, 0xff}[r.Intn(5)] // type bytes around and above 0x80 (the type is stored as a uvarint)
+	}
 	if r.Bool() {
 		f.Stored = true
 		n := r.Intn(6)
